@@ -293,7 +293,7 @@ def run(ctx):
             per_format[f] = stats[f]
     ctx.cov['per_format'] = per_format
     ctx.cov['formats_covered'] = list(per_format.keys())
-    ctx.cov['formats_not_covered'] = ['asn1_ber REAL, BIT STRING, time types, ENUMERATED (no JSON-like counterpart defined by torepr)', 'cbor bignum tags 2/3 and simple values other than false/true/null/undefined', 'msgpack timestamp ext (-1) semantics']
+    ctx.cov['formats_not_covered'] = ['asn1_ber REAL in the decimal (ISO 6093) and special-value encodings, BIT STRING, time types, ENUMERATED (no JSON-like counterpart defined by torepr)', 'cbor bignum tags 2/3 and simple values other than false/true/null/undefined', 'msgpack timestamp ext (-1) semantics']
     ctx.cov['evaluations'] += decodes
     ctx.cov['traces_validated_against_impl'] += len(allev)
     ctx.cov['distinct_nontrivial'] += len(distinct)
